@@ -23,6 +23,13 @@ type DataBlock struct {
 // @return DataBlocks containing original bytes, "de-interleaved" from representation in the Data Matrix Code
 //
 func DataBlocks_getDataBlocks(rawCodewords []byte, version *Version) ([]DataBlock, error) {
+	return getDataBlocks(rawCodewords, version, true)
+}
+
+// getDataBlocks: for the 144x144 symbol two interleavings of the error correction codewords are in use:
+// continuing the round robin of the data codewords (the first error correction codeword belongs to the
+// ninth block; rotated == true) or starting again with the first block, as this package's encoder does.
+func getDataBlocks(rawCodewords []byte, version *Version, rotated bool) ([]DataBlock, error) {
 	// Figure out the number and size of data blocks used by this version
 	ecBlocks := version.getECBlocks()
 
@@ -82,7 +89,9 @@ func DataBlocks_getDataBlocks(rawCodewords []byte, version *Version) ([]DataBloc
 			jOffset := j
 			iOffset := i
 			if specialVersion {
-				jOffset = (j + 8) % numResultBlocks
+				if rotated {
+					jOffset = (j + 8) % numResultBlocks
+				}
 				if jOffset > 7 {
 					iOffset = i - 1
 				}
